@@ -380,6 +380,11 @@ def run(ctx, chk):
              "store addresses a block after it was handed to the installed free, and no block is handed to it twice (unwinding at the nesting limit does not walk through released records)")
     from props.c06 import check_no_access_after_free
     check_no_access_after_free(chk, "C19.no-access-after-free", prog, eff)
+    chk.rule("C19.push-atomic", "the decoding stack's push either links a record and counts it or refuses and leaves the stack as it was: no field of the "
+             "stack header is written on a path of _cbor_stack_push that returns NULL (a refused record allocation must not be counted - "
+             "cbor_load unwinds `size` records), and a successful push makes the returned record the top and the depth one larger")
+    import rules as _rpa
+    _rpa.check_push_atomic(chk, "C19.push-atomic", prog, eff)
     chk.rule("C19.attach", "a chunk callback hands its chunk to the parent as an ordinary item only on paths that know no indefinite string is "
              "open - also when that string sits in the deepest permitted frame (shared with C02.attach)")
     from props.c02 import check_plain_when, wired_builders
